@@ -252,6 +252,26 @@ theorem c18_option_int_and_unknown (lc : Bool) (strip : List Nat) (d : List (Nam
     assign lc strip d cur (.int v) = v ∧ assign lc strip d cur (.str s) = cur :=
   assign_int_and_unknown lc strip d cur v s hs
 
+/-! ### attribute stores of the Python layer refer to C members -/
+
+/-- every attribute that a method of a ctypes class stores on `self` is a ctypes field of that class (so the bytes of the
+    C structure change), a property with a setter, or a committed Python-only attribute -/
+def StoresFull : Prop := badStores pyTab pySetterProps pyOnlyAttrs pyAttrStores = []
+
+/-- … except the stores of known findings; ctypes accepts any attribute name silently, so a misspelt field name
+    (`simulationarchive_auto_steps`, `sim` for `_sim`) writes the instance `__dict__` instead of the structure -/
+theorem c18_attribute_stores_hit_fields_partial :
+    subsetPairs (badStores pyTab pySetterProps pyOnlyAttrs pyAttrStores) knownStoreExceptions = true ∧
+    pyAttrStores.length = pyAttrStoreCount ∧ floorAttrStores ≤ pyAttrStores.length := by decide +kernel
+
+theorem c18_stores_full_iff_findings_closed :
+    StoresFull ↔ (knownStoreExceptions.filter (fun x => memPair x.1 x.2 (badStores pyTab pySetterProps pyOnlyAttrs pyAttrStores))).length = 0 := by
+  unfold StoresFull; decide +kernel
+
+/-- the check does reject a misspelt field and an unresolvable setattr -/
+example : badStores [(n!"S", 8, [⟨n!"auto_step", 0, 8, .int false 8⟩])] [] [] [(n!"S", n!"save", n!"auto_steps"), (n!"S", n!"save", n!"auto_step"), (n!"S", n!"f", n!"?x")]
+    = [(n!"S", n!"auto_steps"), (n!"S", n!"?x")] := by decide +kernel
+
 /-! ### what the matcher's verdict means — for arbitrary tables -/
 
 /-- soundness of the layout matcher (∀ class maps, ∀ field lists) -/
